@@ -34,6 +34,7 @@ func (s *Storage) Get(key string) any {
 	s.RLock()
 	v, ok := s.data[key]
 	s.RUnlock()
+	verifYield(key)
 	if !ok || v.e != 0 && v.e <= utils.Timestamp() {
 		return nil
 	}
